@@ -4,6 +4,7 @@ import (
 	"fmt"
 	"math"
 	"math/big"
+	"net/url"
 	"sort"
 	"strconv"
 	"strings"
@@ -372,7 +373,103 @@ const c17module = `module m { namespace "urn:m"; prefix m; revision 2020-01-01;
 %s
 }`
 
+// list entries that are Go structs, one of them the zero value of its type (key 0, nothing else set)
+type c17Entry struct {
+	K int
+	D string
+}
+type c17BoolEntry struct {
+	K bool
+	D string
+}
+type c17Root struct {
+	Zs []*c17Entry
+	Bs []*c17BoolEntry
+}
+
+func c17zeroEntries(c *core.Ctx) {
+	m, err := parser.LoadModuleFromString(nil, `module ze { namespace "urn:ze"; prefix ze; revision 2020-01-01;
+  list zs { key k; leaf k { type int32; } leaf d { type string; } } list bs { key k; leaf k { type boolean; } leaf d { type string; } } }`)
+	if err != nil {
+		c.Violation(core.Replay{Kind: "harness", Summary: "c17zero module: " + err.Error(), NoInputFound: true})
+		return
+	}
+	for _, order := range [][]int{{0, 1, 2}, {1, 0, 2}, {2, 1, 0}, {0}} {
+		root := &c17Root{}
+		var want []string
+		for _, k := range order {
+			e := &c17Entry{K: k}
+			if k == 1 {
+				e.D = "one"
+			}
+			root.Zs = append(root.Zs, e)
+			want = append(want, fmt.Sprint(k))
+		}
+		root.Bs = []*c17BoolEntry{{K: true, D: "t"}, {K: false}}
+		b := node.NewBrowser(m, &nodeutil.Node{Object: root})
+		for _, k := range append(append([]int{}, order...), 7) {
+			c.Evaluations++
+			c.Count("lookup_backend", "node-struct-zero-entry")
+			c.Distinct(fmt.Sprint("zero", order, k))
+			var got string
+			e := safeDo(func() error {
+				sel, err := b.Root().Find(fmt.Sprintf("zs=%d", k))
+				if err != nil {
+					return err
+				}
+				if sel == nil {
+					got = "none"
+					return nil
+				}
+				v, err := sel.GetValue("k")
+				got = fmt.Sprint(v)
+				return err
+			})
+			if e != nil {
+				got = "error " + short(e.Error())
+			}
+			wantK := fmt.Sprint(k)
+			if k == 7 {
+				wantK = "none"
+			}
+			if got != wantK {
+				c.Violation(core.Replay{Kind: "property-failure", Class: "lookup-zero-entry", Summary: fmt.Sprintf("[]*struct list with keys %v (the entry with key 0 is the zero value of its type): Find(zs=%d) gave %s, want %s", order, k, got, wantK), Input: fmt.Sprint(order, " ", k)})
+			}
+		}
+		// walking the list shows every entry
+		var rows []string
+		e := safeDo(func() error {
+			sel, err := b.Root().Find("zs")
+			if err != nil || sel == nil {
+				return fmt.Errorf("list: %v", err)
+			}
+			for item, err := sel.First(); item.Selection != nil; item, err = item.Next() {
+				if err != nil {
+					return err
+				}
+				rows = append(rows, item.Key[0].String())
+				if len(rows) > 10 {
+					break
+				}
+			}
+			return nil
+		})
+		c.Evaluations++
+		if e != nil || fmt.Sprint(rows) != fmt.Sprint(want) {
+			c.Violation(core.Replay{Kind: "property-failure", Class: "walk-zero-entry", Summary: fmt.Sprintf("[]*struct list with keys %v: walking visits %v (%v)", order, rows, e), Input: fmt.Sprint(order)})
+		}
+		for _, k := range []string{"true", "false"} {
+			c.Evaluations++
+			sel, err := b.Root().Find("bs=" + k)
+			if err != nil || sel == nil {
+				c.Violation(core.Replay{Kind: "property-failure", Class: "lookup-zero-entry-bool", Summary: fmt.Sprintf("[]*struct list keyed by a boolean: Find(bs=%s) gives (%v, %v)", k, sel != nil, err), Input: k})
+			}
+		}
+	}
+}
+
 func c17lookups(c *core.Ctx, rng *core.Rng) {
+	c17zeroEntries(c)
 	type keyType struct {
 		yang string
 		gen  func() (goVal interface{}, url string)
@@ -414,8 +511,8 @@ func c17lookups(c *core.Ctx, rng *core.Rng) {
 		kts = append(kts, keyType{f.yang, mkInt(f)})
 	}
 	kts = append(kts, keyType{"string", func() (interface{}, string) {
-		s := core.Pick(rng, []string{"a", "b", "ab", "abc", "B", "z", "aa", "a0", "0", "10", "9"}) + fmt.Sprint(rng.Intn(3))
-		return s, s
+		s := core.Pick(rng, []string{"a", "b", "ab", "abc", "B", "z", "aa", "a0", "0", "10", "9", "a,b", "a,", ",a", "a/b", "a%2Cb", "a b", "a=b"}) + fmt.Sprint(rng.Intn(3))
+		return s, url.QueryEscape(s)
 	}})
 	// decimal64 keys that differ only in their last fraction digits, and far apart
 	kts = append(kts, keyType{"d8", func() (interface{}, string) {
